@@ -559,7 +559,27 @@ func (wd *lworld) advance() bool {
 	return false
 }
 
+// dress gives the items of a plan their values (see qa.Dress), also inside bursts and races.
+func dress(kind string, rep int, plan []act) {
+	var earlier []int
+	one := func(a *qa.Act) {
+		qa.Dress(dressRng.Intn, kind, rep, a, earlier)
+		if (a.Op == "add" || a.Op == "addw") && a.Vk == qa.VkDefault && rep == 2 {
+			earlier = append(earlier, a.V)
+		}
+	}
+	for i := range plan {
+		one(&plan[i].Act)
+		for j := range plan[i].Acts {
+			one(&plan[i].Acts[j])
+		}
+	}
+}
+
+var dressRng = rand.New(rand.NewSource(1))
+
 func newWorld(src, kind string, ccap, rcap, rep int, plan []act, emit func(tr.E)) *lworld {
+	dress(kind, rep, plan)
 	wd := &lworld{emit: emit, q: qa.New(kind, ccap, rcap, rep), kind: kind, x: getExec(nCons + nCall),
 		m: qa.Model{Kind: kind, Ccap: ccap, Rcap: rcap}, plan: plan}
 	emit(tr.E{"ev": "reset", "kind": kind, "ccap": qa.Clamp(ccap), "rcap": qa.Clamp(rcap), "src": src, "rep": rep})
@@ -1559,6 +1579,7 @@ func main() {
 	npstress := flag.Int("npstress", 0, "additional priq stress runs")
 	flag.Parse()
 	rng := rand.New(rand.NewSource(*seed))
+	dressRng = rand.New(rand.NewSource(*seed + 7))
 	priq.VerifGate = gate
 
 	var open []*tr.W
